@@ -264,6 +264,18 @@ def check(ctx):
     comp = Component(ctx.repo, MEM, "MultiportILVTMemory", rule="C21")
     n = sum(c23y.ilvt_entry_width(ctx, ex, "C21") for ex in comp.configs)
     ctx.floor("C21", "ILVT instances", n, 2, comp.site)
+    # ... and so are the port objects, the option plumbing (granularity!) and the timing coherence of every memory type the
+    # bank can be built on: the same obligations as C23, reported under this property (known finding F4 belongs to C23's
+    # own granularity rule, which is not repeated here)
+    from . import c23w, c23z
+    from .C23 import CLASSES as _MEMS
+
+    nt = c23w.ports(ctx)
+    for cls in _MEMS:
+        mc = Component(ctx.repo, MEM, cls, rule="C21")
+        for ex in mc.configs:
+            nt += c23z.timing(ctx, mc, ex, cls, cfg_name(ex))
+    ctx.floor("C21", "memory-type obligations", nt, 40, MEM)
 
 
 MUTANTS = [
